@@ -5,7 +5,7 @@ PROP = dict(
     ns='IcyVerif.C03',
     theorems=['all_loops_known', 'loop_inventory_complete', 'parse_number_bounded', 'rep_count_le', 'tab_count_le',
               'ich_count_le', 'il_count_le', 'scroll_count_le', 'scroll_lr_count_le', 'up_scroll_count_le',
-              'dch_count_le', 'dl_count_le', 'pushRepeated_len', 'replay_budget', 'macro_expansion_bounded', 'stream_steps_bounded'],
+              'dch_count_le', 'dl_count_le', 'pushRepeated_len', 'pushRepeated_chars', 'replay_budget', 'macro_expansion_bounded', 'stream_steps_bounded'],
     harness='c03',
     harness_timeout=2400,
     design='DESIGN.md §4 C03',
